@@ -555,6 +555,7 @@ JudgeRroute(e) ==
        S_reverse_route_refused_iff_a_hop_is |-> G(linked, e.ok = whole),
        S_reverse_route_is_the_chain_of_reverse_quotes |-> G(linked /\ e.ok /\ whole, e.offer = ch[n].offer),
        S_reverse_route_fee_lists_are_the_hops_fees |-> G(linked /\ e.ok /\ whole,
+            /\ e.lists_sorted     \* strictly ascending by denom, as observed on the response (TLC does not order strings)
             /\ FeeListIs(e.swap_fees, ch, "swap") /\ FeeListIs(e.protocol_fees, ch, "protocol") /\ FeeListIs(e.burn_fees, ch, "burn")
             /\ FeeListIs(e.extra_fees, ch, "extra") /\ FeeListIs(e.slippage_amounts, ch, "slip")) ]
 (* C16 seen through the AssetDecimals query: the decimals of a pool's denom are the ones recorded at creation, at the position of
